@@ -16,7 +16,7 @@
         (HiddenName) whose level [n] has the predicate [lambda x: x == n] over the flat factor
     [hidden_accepts n x]        that predicate. *)
 From Coq Require Import List Bool Arith String.
-From SP Require Import Front.Desugar Front.DesugarProofs.
+From SP Require Import Design.Sem Front.Desugar Front.DesugarProofs Front.NestSem Front.DesugarSem.
 Import ListNotations.
 
 (** Crossing size and per-combination multiplicity: a combination's weight is the
@@ -51,6 +51,64 @@ Theorem C23_desugar_multiplicity :
     List.length (filter (fun l => hidden_accepts n (fst l)) (flat_levels f)) = w.
 Proof. exact desugar_multiplicity. Qed.
 Print Assumptions C23_desugar_multiplicity.
+
+(** The same in terms of the reference semantics (Design/Sem.v; definitions in Front/DesugarSem.v).
+    [S] is the normal form of the design with its weighted factor [f] ([length ws] levels of
+    weights [ws]); its desugared normal form is [widen f (list_sum ws) S] - one level per copy -
+    and [proj_seq f ws] replaces every copy in row [f] by its original level [orig ws c]
+    (c23.py compares [widen] / [orig] with the documented normal form of the twin program with
+    separately named copies on every run).  Guard [free_b S f] (boolean): [f] is non-derived with
+    sustain count 1, in no crossing, named by no constraint, read by no derived factor, and [S]
+    has no LatinSquare constraint. *)
+
+(** every original level [l] has exactly [weight l] copies *)
+Theorem C23_copies_of_level :
+  forall ws l, List.length (filter (fun c => Nat.eqb (orig ws c) l) (seq 0 (list_sum ws))) = nth l ws 0.
+Proof. exact copies_of_level. Qed.
+Print Assumptions C23_copies_of_level.
+
+(** a sequence of the desugared form is valid iff its image under the copy -> original map is
+    valid for the original form and its copies exist: the map sends valid sequences to valid
+    sequences, and every in-range pre-image of a valid sequence is valid *)
+Theorem C23_desugared_valid :
+  forall S f ws s fd,
+    free_b S f = true -> nth_error (s_factors S) f = Some fd -> List.length ws = f_nlevels fd ->
+    (valid_b (widen f (list_sum ws) S) s = true <->
+     valid_b S (proj_seq f ws s) = true /\ in_range (list_sum ws) (nth f s [])).
+Proof. exact desugared_valid. Qed.
+Print Assumptions C23_desugared_valid.
+
+(** the fibre over a valid sequence [s] whose row for [f] is [r]: among the rows [w] of copies,
+    exactly those with [map (orig ws) w = r] give a valid sequence of the desugared form lying over [s] ... *)
+Theorem C23_desugared_fibre :
+  forall S f ws s fd r w,
+    free_b S f = true -> nth_error (s_factors S) f = Some fd -> List.length ws = f_nlevels fd ->
+    valid_b S s = true -> f < List.length s -> nth f s [] = map Some r ->
+    In w (all_words (list_sum ws) (List.length r)) ->
+    (proj_seq f ws (with_row f w s) = s /\ valid_b (widen f (list_sum ws) S) (with_row f w s) = true
+     <-> row_matches ws r w = true).
+Proof. exact desugared_fibre. Qed.
+Print Assumptions C23_desugared_fibre.
+
+(** ... and there are exactly (product of the weights of the chosen levels) of them: the
+    multiplicity a without-replacement sampler shows for the name-level sequence *)
+Theorem C23_row_fibre :
+  forall ws r,
+    List.length (filter (row_matches ws r) (all_words (list_sum ws) (List.length r)))
+    = fold_right (fun l acc => nth l ws 0 * acc) 1 r.
+Proof. exact row_fibre. Qed.
+Print Assumptions C23_row_fibre.
+
+(** The guard is met by W = [w0 x 2, w1] outside the crossing [B] (2 trials): 8 valid sequences,
+    18 in the desugared form; w0,w0 has 4 pre-images, w0,w1 has 2, w1,w1 has 1. *)
+Example C23_example_sem :
+  free_b ex_orig_sem 0 = true /\
+  List.length (all_valid ex_orig_sem) = 8 /\ List.length (all_valid (widen 0 (list_sum [2; 1]) ex_orig_sem)) = 18 /\
+  map (orig [2; 1]) [0; 1; 2] = [0; 0; 1] /\
+  List.length (filter (row_matches [2; 1] [0; 0]) (all_words 3 2)) = 4 /\
+  List.length (filter (row_matches [2; 1] [0; 1]) (all_words 3 2)) = 2 /\
+  List.length (filter (row_matches [2; 1] [1; 1]) (all_words 3 2)) = 1.
+Proof. exact ex_free. Qed.
 
 (** Which factors are desugared: none if no weighted non-derived factor lies outside every
     crossing; and never a factor that is in some crossing. *)
